@@ -62,7 +62,10 @@ impl<const N: usize> Sodg<N> {
     pub fn bind(&mut self, v1: usize, v2: usize, a: Label) {
         let mut ours = self.vertices.get(v1).unwrap().branch;
         let theirs = self.vertices.get(v2).unwrap().branch;
+        let unread2 =
+            usize::from(self.vertices.get(v2).unwrap().persistence == Persistence::Stored);
         let vtx1 = self.vertices.get_mut(v1).unwrap();
+        let unread1 = usize::from(vtx1.persistence == Persistence::Stored);
         vtx1.edges.insert(a, v2);
         if ours == BRANCH_STATIC {
             if theirs == BRANCH_STATIC {
@@ -76,15 +79,18 @@ impl<const N: usize> Sodg<N> {
                 }
                 self.vertices.get_mut(v2).unwrap().branch = ours;
                 self.branches.get_mut(ours).unwrap().push(v2);
+                *self.stores.get_mut(ours).unwrap() += unread1 + unread2;
             } else {
                 vtx1.branch = theirs;
                 self.branches.get_mut(theirs).unwrap().push(v1);
+                *self.stores.get_mut(theirs).unwrap() += unread1;
             }
         } else {
             let vtx2 = self.vertices.get_mut(v2).unwrap();
             if vtx2.branch == BRANCH_STATIC {
                 vtx2.branch = ours;
                 self.branches.get_mut(ours).unwrap().push(v2);
+                *self.stores.get_mut(ours).unwrap() += unread2;
             }
         }
         #[cfg(debug_assertions)]
